@@ -432,7 +432,8 @@ Proof. intros. apply no_dropped_visible. reflexivity. Qed.
 Definition st_plain : frec :=
   {| cur_off := 0; last_op := OpUnknown; end_off := 100; cache := false; dirty_dd := false; dirty_end := false;
      blocks := [ {| b_off := 2; b_dirty := false; b_ndds := 16 |} ]; cursor := 0%nat; refcount := 1; attach := 0;
-     vmod := false; vcalls := 0%nat; file_open := true; writable := true; own_aid := false |}.
+     vmod := false; vcalls := 0%nat; file_open := true; writable := true; own_aid := false;
+     nb_published := false; nb_freed := false |}.
 
 Lemma hclose_orig_refuted_lemma :
   exists st o st' o' tr, run_fn frec Hclose_prog_orig st o = (true, st', o', tr) /\ clean tr = false.
@@ -485,7 +486,7 @@ Lemma anchored_covers_lemma :
   ["HP_read"; "HP_write"; "HPseek"; "hi_close_stdio"; "HIextend_file"; "HIsync"; "HTPsync"; "HTPend";
    "HIrelease_filerec_node"; "HIupdate_version"; "Hclose"; "Hsync"; "HPread_drec"; "Vdetach"; "VSdetach";
    "HMCPcloseAID"; "HMCPendaccess"; "mcache_sync"; "ncclose"; "NC_free_cdf"; "hdf_close"; "hdf_xdr_cdf"; "xdr_cdf";
-   "SDend"; "SDendaccess"].
+   "SDend"; "SDendaccess"; "HPgetdiskblock"; "HTIupdate_dd"; "HTInew_dd_block"].
 Proof. reflexivity. Qed.
 
 (** a table without dropped sites gives, for ANY control flow over those sites, a visible program: the link between
@@ -507,7 +508,8 @@ Definition st_cached : frec :=
      blocks := [ {| b_off := 2; b_dirty := true; b_ndds := 4 |}; {| b_off := 300; b_dirty := false; b_ndds := 4 |};
                  {| b_off := 500; b_dirty := true; b_ndds := 4 |} ];
      cursor := 0%nat; refcount := 1; attach := 0; vmod := true; vcalls := 3%nat; file_open := true;
-     writable := true; own_aid := false |}.
+     writable := true; own_aid := false;
+     nb_published := false; nb_freed := false |}.
 
 (* ------------------------------------------------------------------------------------------------------------ *)
 (** * Statements exactly as they appear in Properties_C16.v *)
@@ -621,3 +623,41 @@ Definition env_sdend : genv :=
                  false; true; false; false; true; false; true; false; false; false];
      trips := [2%nat]; counts := [2%nat; 3%nat; 1%nat; 1%nat; 1%nat; 1%nat; 2%nat; 4%nat]; cur := O; indef := false;
      decode := false; returned := false |}.
+
+(* ------------------------------------------------------------------------------------------------------------ *)
+(** * DD-block growth (round 2): HPgetdiskblock, HTIupdate_dd, HTInew_dd_block *)
+
+Lemma ddgrow_matches_source_lemma :
+  sites frec (HPgetdiskblock_prog (fun _ => 1) true) = norm_sites sites_HPgetdiskblock /\
+  sites frec (HTIupdate_dd_prog cur_off) = norm_sites sites_HTIupdate_dd /\
+  sites frec HTInew_dd_block_prog = norm_sites sites_HTInew_dd_block /\
+  fact_HTInew_dd_block_io_after_publication = true.
+Proof. repeat split; reflexivity. Qed.
+
+Lemma ddgrow_visible_lemma :
+  (forall size mv, visible_prog frec (HPgetdiskblock_prog size mv)) /\
+  (forall off, visible_prog frec (HTIupdate_dd_prog off)) /\ visible_prog frec HTInew_dd_block_prog.
+Proof.
+  repeat split; intros; apply no_dropped_visible; try reflexivity. destruct mv; reflexivity.
+Qed.
+
+(** memory safety of the error path: the new DD block is linked into the list BEFORE the last I/O step, so the error
+    clean-up must not free it.  [HTInew_dd_block_prog]'s clean-up is whatever the translator finds in the source. *)
+Lemma newblock_never_dangling_lemma : forall st o r l st' o' tr,
+  nb_freed st = false -> exec frec HTInew_dd_block_prog st o = (r, l, st', o', tr) -> nb_dangling st' = false.
+Proof.
+  intros st o r l st' o' tr Hf H.
+  assert (nb_freed st' = false).
+  { eapply (exec_pres frec (fun s => nb_freed s = false) HTInew_dd_block_prog); eauto.
+    unfold HTInew_dd_block_prog, HPgetdiskblock_prog, HPseek_prog, HP_write_prog, publish_block, id_st. simpl.
+    repeat split; intros s Hs; try exact Hs; destruct s; simpl in *; exact Hs. }
+  unfold nb_dangling. rewrite H0. apply andb_false_r.
+Qed.
+
+(** non-vacuity: not caching, one full block: six device calls; a fault at the last two (the link update) leaves the
+    function with FAIL and the block published *)
+Definition st_nocache_full : frec :=
+  {| cur_off := 200; last_op := OpWrite; end_off := 200; cache := false; dirty_dd := false; dirty_end := false;
+     blocks := [ {| b_off := 4; b_dirty := false; b_ndds := 4 |} ]; cursor := 0%nat; refcount := 1; attach := 0;
+     vmod := false; vcalls := 0%nat; file_open := true; writable := true; own_aid := false;
+     nb_published := false; nb_freed := false |}.
